@@ -277,6 +277,8 @@ def run(ctx):
     hooks, seen, canary = detect_hooks(ctx, binpath)
     ctx.notes.append("H3 yield call sites %s in %s (yield ids seen by the canary: %s)" % ("present" if hooks else "ABSENT: forced-schedule part skipped", ctx.repo, seen))
     rep.extra["h3_hooks_present"] = hooks
+    if hooks:
+        sc.calibrate_locks(ctx, rep, binpath)
     thorough = ctx.thorough()
     rng = ctx.rng
 
